@@ -582,6 +582,21 @@ class Run:
             return
 
         # exception faults (exc / region)
+        if (
+            fault["kind"] == "exc"
+            and fault.get("site") in ("objective", "group", "fill_item", "matrix", "residual")
+            and sm.injected is not None
+            and escaped is not sm.injected
+        ):
+            # the model (a megacomplex, the residual solver, item filling) raised `injected`; what left the objective
+            # function is something else: the error was rewritten inside the evaluation
+            rec.violate(
+                "C15/exception-changed",
+                "propagation",
+                f"the model raised {type(sm.injected).__name__}({sm.injected}) but {type(escaped).__name__}({escaped}) left the "
+                f"evaluation; {tag}",
+            )
+            return
         if raise_exc:
             if exc is None:
                 rec.violate("C15/not-propagated", "propagation", f"raise_exception=True but got {outcome}; {tag}")
